@@ -64,10 +64,43 @@ type State struct {
 	nonNil    map[string]bool
 	quiet     int
 	havocPats []string
+	calls     *callEntry // completed calls on this path (persistent list)
+}
+
+type callEntry struct {
+	frame  int
+	key    string
+	res    Value
+	parent *callEntry
+}
+
+func (st *State) callCount(frame int, key string) int {
+	n := 0
+	for c := st.calls; c != nil; c = c.parent {
+		if c.frame == frame && c.key == key {
+			n++
+		}
+	}
+	return n
+}
+
+// callResult returns the result of the n-th (1-based) completed call of key in frame.
+func (st *State) callResult(frame int, key string, n int) (Value, bool) {
+	var all []Value
+	for c := st.calls; c != nil; c = c.parent {
+		if c.frame == frame && c.key == key {
+			all = append(all, c.res)
+		}
+	}
+	// all is newest first
+	if n < 1 || n > len(all) {
+		return nil, false
+	}
+	return all[len(all)-n], true
 }
 
 func (st *State) clone() *State {
-	n := &State{log: st.log, alloc: st.alloc, panicking: st.panicking, recovered: st.recovered, panicVal: st.panicVal, epoch: st.epoch, nonNil: st.nonNil}
+	n := &State{log: st.log, alloc: st.alloc, panicking: st.panicking, recovered: st.recovered, panicVal: st.panicVal, epoch: st.epoch, nonNil: st.nonNil, calls: st.calls}
 	n.active = append([]*loopRun{}, st.active...)
 	n.havocPats = append([]string{}, st.havocPats...)
 	if st.written != nil {
